@@ -28,6 +28,11 @@ void gen_payload(uint64_t seed, size_t n, int flavour, std::vector<uint8_t>& out
 struct GenProfile { unsigned max_depth = 4; unsigned max_kids = 4; uint64_t big_len_cap = 300; bool allow_big = false; };
 MV gen_mv(Rng& r, const GenProfile& p, unsigned depth = 0);
 
+// nesting chain: `depth` wrappers cycling through `kinds` around an innermost leaf; reports the decoder levels it needs
+void nest_chain(const std::vector<uint64_t>& kinds, size_t depth, unsigned leaf_kind, std::vector<uint8_t>& out, unsigned* total_levels);
+unsigned nest_leaf_levels(unsigned leaf_kind);
+MV deep_mv(Rng& r, unsigned depth);     // a value nested `depth` containers deep (tags, arrays, maps, indefinite flavours)
+
 // workloads (one file each)
 J gen_stream(const std::string&, uint64_t, const std::string&); void exec_stream(const J&);
 J gen_seq(const std::string&, uint64_t, const std::string&);    void exec_seq(const J&);
